@@ -55,15 +55,37 @@ structure Verdict where
   cex : Option (List UInt8 × DState × SState)
 deriving Inhabited
 
+/-- all byte sets occurring in the rule set's patterns -/
+def RuleSet.allSets (S : RuleSet) : List ByteSet :=
+  (S.rules.flatMap fun r => r.full.clsSets ++ r.head.clsSets).eraseDups
+
+/-- group the alphabet by signature w.r.t. `sets` (unverified; re-checked by `classesOK`) -/
+def groupBySig (sets : List ByteSet) (alpha : List UInt8) : List (UInt8 × List UInt8) :=
+  let m : Std.HashMap (List Bool) (List UInt8) :=
+    alpha.foldl (fun m c =>
+      let k := sets.map (·.mem c)
+      m.insert k (c :: (m.getD k []))) {}
+  m.toList.filterMap fun (_, cs) =>
+    match cs.reverse with
+    | [] => none
+    | k :: rest => some (k, k :: rest)
+
+def classesOK (sets : List ByteSet) (classes : List (UInt8 × List UInt8)) : Bool :=
+  classes.all fun kc => kc.2.all fun c => sets.map (·.mem c) == sets.map (·.mem kc.1)
+
 /-- the decision procedure: explore, then re-check the relation found -/
 def validate (S : RuleSet) (T : Tables) (budget : Nat) : Verdict :=
   let A := tblAuto T
   let B := specAuto S T.reject
   let alpha := bytesBelow T.csize
+  let sets := S.allSets
+  let classes := groupBySig sets alpha
   let starts := startPairs S T
-  let r := explore A B alpha starts budget
+  let r := explore A B classes starts budget
   let R := r.rel.toList
-  let ok := r.cex.isNone && !r.exhausted && closed A B alpha R && starts.all fun p => R.contains p
+  let ok := r.cex.isNone && !r.exhausted && classesOK sets classes &&
+    (R.all fun p => SState.setsWithin sets p.2) &&
+    closedBy A B alpha classes R && starts.all fun p => R.contains p
   { ok := ok, pairs := r.rel.size, exhausted := r.exhausted, cex := r.cex }
 
 /-- **Soundness of the validator** (for all inputs): if `validate` accepts, then from every
@@ -77,9 +99,9 @@ theorem validate_sound (S : RuleSet) (T : Tables) (budget : Nat)
     T.label ((tblAuto T).run (T.startState sc bol) w) =
       specLabel S T.reject ((S.startState sc bol).run w).accTags := by
   simp only [validate, Bool.and_eq_true] at h
-  obtain ⟨⟨⟨_, _⟩, hcl⟩, hst⟩ := h
+  obtain ⟨⟨⟨⟨⟨_, _⟩, hcls⟩, hwithin⟩, hcl⟩, hst⟩ := h
   have hmem : (T.startState sc bol, S.startState sc bol) ∈ (explore (tblAuto T) (specAuto S T.reject)
-      (bytesBelow T.csize) (startPairs S T) budget).rel.toList := by
+      (groupBySig S.allSets (bytesBelow T.csize)) (startPairs S T) budget).rel.toList := by
     rw [List.all_eq_true] at hst
     have : (T.startState sc bol, S.startState sc bol) ∈ startPairs S T := by
       unfold startPairs
@@ -88,7 +110,19 @@ theorem validate_sound (S : RuleSet) (T : Tables) (budget : Nat)
       cases bol <;> simp
     have := hst _ this
     simpa using this
-  have := closed_sound (tblAuto T) (specAuto S T.reject) (bytesBelow T.csize) _ hcl _ _ hmem w
+  have hB : ∀ p ∈ (explore (tblAuto T) (specAuto S T.reject)
+      (groupBySig S.allSets (bytesBelow T.csize)) (startPairs S T) budget).rel.toList,
+      ∀ kc ∈ groupBySig S.allSets (bytesBelow T.csize), ∀ c ∈ kc.2,
+        (specAuto S T.reject).step p.2 c = (specAuto S T.reject).step p.2 kc.1 := by
+    intro p hp kc hkc c hc
+    simp only [specAuto]
+    apply SState.step_congr S.allSets
+    · rw [List.all_eq_true] at hwithin
+      exact hwithin p hp
+    · simp only [classesOK, List.all_eq_true] at hcls
+      have := hcls kc hkc c hc
+      simpa using this
+  have := closedBy_sound (tblAuto T) (specAuto S T.reject) (bytesBelow T.csize) _ _ hcl hB _ _ hmem w
     (fun c hc => mem_bytesBelow (hw c hc))
   rw [specAuto_run] at this
   exact this
